@@ -108,6 +108,7 @@ func ruleLookupTable(c *Ctx) {
 			filtered bool // made through a helper that already lets the not-found case fall through
 		}
 		var consults []consult
+		loopOf := map[*ast.CallExpr]*ast.RangeStmt{}
 		indexed := map[string]bool{}    // recv path (joined) indexed by the token
 		atoiIndexed := map[string]bool{} // indexed by strconv.Atoi(token) result
 		atoiVars := map[types.Object]bool{}
@@ -118,6 +119,21 @@ func ruleLookupTable(c *Ctx) {
 				if len(x.Rhs) == 1 {
 					if call, ok := x.Rhs[0].(*ast.CallExpr); ok {
 						if c.isPkgFunc(call, "github.com/go-openapi/jsonpointer", "GetForToken") && len(call.Args) == 2 && isTok(call.Args[1]) {
+							// for _, block := range []interface{}{recv.A, recv.B} { GetForToken(block, token) ... }
+							if id, ok := unparen(call.Args[0]).(*ast.Ident); ok {
+								if loop, comps := c.rangeOverReceiverParts(fd, c.objOf(id), recv); loop != nil {
+									var lhs []types.Object
+									for _, l := range x.Lhs {
+										if lid, ok := l.(*ast.Ident); ok {
+											lhs = append(lhs, c.objOf(lid))
+										}
+									}
+									for _, comp := range comps {
+										consults = append(consults, consult{comp, call, lhs, false})
+									}
+									loopOf[call] = loop
+								}
+							}
 							if p, ok := c.apath(call.Args[0]); ok && p.Root == recv && len(p.Steps) > 0 {
 								var lhs []types.Object
 								for _, l := range x.Lhs {
@@ -292,9 +308,13 @@ func ruleLookupTable(c *Ctx) {
 			ok, why := true, ""
 			// every return between this consultation and the next must be conditional, and an
 			// error return must be guarded by the negated not-found test on the error text
+			regionEnd := next.call.Pos()
+			if loop := loopOf[cn.call]; loop != nil {
+				regionEnd = loop.End()
+			}
 			c.walkWithIfStack(fd.Body, func(nd ast.Node, ifs []*ast.IfStmt) {
 				rs, isR := nd.(*ast.ReturnStmt)
-				if !isR || rs.Pos() < cn.call.End() || rs.Pos() > next.call.Pos() {
+				if !isR || rs.Pos() < cn.call.End() || rs.Pos() > regionEnd {
 					return
 				}
 				var guard *ast.IfStmt
@@ -508,4 +528,36 @@ func (c *Ctx) lookupWrapper(call *ast.CallExpr, formats []string) (isWrapper, fi
 		filtered = false
 	}
 	return true, filtered
+}
+
+// rangeOverReceiverParts: v is the value variable of `for _, v := range []T{recv.A, recv.B}`; returns the loop and
+// the first path step of every listed receiver part.
+func (c *Ctx) rangeOverReceiverParts(fd *ast.FuncDecl, v, recv types.Object) (*ast.RangeStmt, []string) {
+	var loop *ast.RangeStmt
+	var comps []string
+	ast.Inspect(fd.Body, func(n ast.Node) bool {
+		rs, ok := n.(*ast.RangeStmt)
+		if !ok {
+			return true
+		}
+		id, ok := rs.Value.(*ast.Ident)
+		if !ok || c.objOf(id) != v {
+			return true
+		}
+		lit, ok := unparen(rs.X).(*ast.CompositeLit)
+		if !ok {
+			return true
+		}
+		var cs []string
+		for _, el := range lit.Elts {
+			p, ok := c.apath(el)
+			if !ok || p.Root != recv || len(p.Steps) == 0 {
+				return true
+			}
+			cs = append(cs, p.Steps[0])
+		}
+		loop, comps = rs, cs
+		return true
+	})
+	return loop, comps
 }
